@@ -28,6 +28,7 @@ type HarnessSpec struct {
 	MaxPaths int      `json:"max_paths"`
 	MaxSteps int64    `json:"max_steps"`
 	ConcCap  int      `json:"concretize_cap"`
+	Solver   string   `json:"solver"` // z3 (default) | z3-new | cvc5 | cvc5-int
 	// Selfcheck: number of random concrete traces compared against the native build
 	Selfcheck int `json:"selfcheck"`
 }
@@ -173,7 +174,7 @@ func runCheck(repo, vdir, prop, tier string, workers int, only string, noReplay 
 			problems = append(problems, fmt.Sprintf("harness %s.%s not found", pkgPath, h.Func))
 			continue
 		}
-		cfg := interp.ExploreConfig{Harness: h.Func, Workers: workers, MaxPaths: h.MaxPaths, MaxSteps: h.MaxSteps, ConcretizeCap: h.ConcCap, Tier: tierN}
+		cfg := interp.ExploreConfig{Harness: h.Func, Workers: workers, MaxPaths: h.MaxPaths, MaxSteps: h.MaxSteps, ConcretizeCap: h.ConcCap, Tier: tierN, SolverKind: h.Solver}
 		if tier == "thorough" {
 			cfg.SolverTimeout = 5000
 			cfg.FallbackMs = 300000
